@@ -1110,6 +1110,10 @@ class C06Engine(object):
         if (b.meta or {}).get("subset") is not None:
             b.have = set(b.meta["subset"])
         b.companion = bool((b.meta or {}).get("companion"))
+        if b.lib == "simlib" and b.have is None:
+            # a replay file carries the subject description of the day it was recorded; the drivers are
+            # today's: keep only the branches whose declarations that description has
+            b.have = set(decl_name(x) for x in split_decls(rf["yaml"])[1])
         if not b.generate() or not b.compile(self.args.workers).get(rf["driver"]):
             print("HARNESS-ERROR: build failed: %s" % json.dumps(b.errors)[:1500])
             return report.EXIT_HARNESS
